@@ -39,3 +39,13 @@ ADDITIONAL REQUIREMENTS FOR THIS ROUND (they override the above where they diffe
   (4) the breakage needs an unusual but legal VALUE class in the data (empty strings, zero, maximum values, non-ASCII or combining characters, names that are prefixes of other names, duplicate entries) in combination with a second condition;
   (5) the breakage needs a particular thread interleaving or a fault (I/O error, missing directory, full disk simulated by a failing writer, permission change) at one particular point.
 Write the results into {out}/r5_1/ and {out}/r5_2/ (instead of change1/ change2/), same three files each. In meta.json add a field "kind": one of 1..5 as above. The change must read like an honest refactoring or optimisation with a plausible commit message (put it in meta.json as "commit_message"); no dead code, no comments that give the bug away.""")
+
+if ROUND == "r7":
+    print(f"""
+ADDITIONAL REQUIREMENTS FOR THIS ROUND (they override the above where they differ). Many rounds of this exercise already produced the obvious mutations of the anchor functions (flipped comparisons, off-by-ones, dropped sorts, missing flushes, byte/char confusions, stale caches after restart, narrowed critical sections, builder-order bugs, block-wise padding, Unicode case folding, directory creation moved to the builder). This round asks for changes that live at the SEAMS of the crate; pick two of these kinds, one per change:
+  (6) the configuration-FILE path: a deserializer, the `Deserializers` registry, `RawConfig`, `appenders_lossy`, `init_file`/`load_config_file`, the reloader — the programmatic builder API stays correct, the same logical configuration loaded from YAML/JSON/TOML (or re-loaded at runtime) breaks the property;
+  (7) object LIFETIMES: `Drop`, flush, `Handle` clones, an appender shared through `Arc` by two loggers or two configurations, the old configuration's objects still alive while the new ones are used, a logger used from a thread that outlives a reconfiguration;
+  (8) the INTERACTION of two components that are each correct alone: encoder + appender (what the appender does with what the encoder wrote), trigger + roller (when the policy consults which), filter + logger level, reloader + logger, pattern writer stack + console/ansi writer;
+  (9) PROCESS conditions: current directory, environment variables, time zone, stdout/stderr closed or full, file permissions, symlinks, a second process or handle touching the same file;
+  (10) an ERROR PATH: what state is left behind when an I/O operation, an encoder, a filter, a trigger or a roller returns an error or panics, and the same objects are used again.
+Write the results into {out}/r7_1/ and {out}/r7_2/ (instead of change1/ change2/), same three files each. In meta.json add a field "kind": one of 6..10 as above, and "commit_message". The change must read like an honest refactoring, optimisation or robustness fix; no dead code, no comments that give the bug away. Prefer changes whose demonstration does NOT depend on timing; if it needs an interleaving, make the demo deterministic (barriers, custom Encode/Append/Filter impls, the crate's guarded `verif_hooks` points if you compile the demo with `--features verif_hooks`).""")
